@@ -28,6 +28,12 @@ struct JobResult {
     attempts: u32,
     outcome: Outcome,
     violations: Vec<(String, String)>,
+    /// timing clauses that fired in some but not all executions of this schedule
+    #[serde(default)]
+    timing_inconclusive: Vec<String>,
+    /// executions that left the shadow model but did not do so again when repeated
+    #[serde(default)]
+    divergences_not_reproduced: u32,
 }
 
 fn cfgs_probe() -> Cfg {
@@ -43,23 +49,69 @@ fn run_job(h: &mut Harness, job: &Job) -> JobResult {
             attempts: 1,
             outcome: Outcome { probe: format!("calibrated:{v}"), ..Default::default() },
             violations: vec![],
+            timing_inconclusive: vec![],
+            divergences_not_reproduced: 0,
         };
     }
     model::POLLS_BEFORE_SIGNAL.store(job.polls_before_signal, std::sync::atomic::Ordering::Relaxed);
-    let mut attempts = 0;
-    loop {
-        attempts += 1;
-        let outcome = h.execute(job.cfg, &job.schedule);
-        if outcome.timing_unsafe && attempts < 4 {
-            continue;
+    let mut attempts = 0u32;
+    let mut divergences_not_reproduced = 0u32;
+    // One "settled" execution: not timing-unsafe (the short timeout did not race the scheduled
+    // part) and, if it left the shadow model, it did so again when repeated (a stall caused by
+    // CPU starvation does not repeat; a real behavioural difference does).
+    let settled = |h: &mut Harness, attempts: &mut u32, flaky: &mut u32| -> Outcome {
+        let mut unsafe_tries = 0;
+        let mut diverged_tries = 0;
+        loop {
+            *attempts += 1;
+            let o = h.execute(job.cfg, &job.schedule);
+            if o.timing_unsafe && unsafe_tries < 7 {
+                unsafe_tries += 1;
+                continue;
+            }
+            if o.diverged.is_some() && diverged_tries < 2 {
+                diverged_tries += 1;
+                continue;
+            }
+            if o.diverged.is_none() && diverged_tries > 0 {
+                *flaky += 1;
+            }
+            return o;
         }
-        let violations = oracle::judge(&job.cfg, &outcome);
-        return JobResult {
-            id: job.id,
-            attempts,
-            outcome,
-            violations,
-        };
+    };
+    let outcome = settled(h, &mut attempts, &mut divergences_not_reproduced);
+    let mut violations = oracle::judge(&job.cfg, &outcome);
+    let mut timing_inconclusive = Vec::new();
+    let timing: Vec<String> = violations
+        .iter()
+        .map(|(k, _)| k.clone())
+        .filter(|k| oracle::is_timing_key(k))
+        .collect();
+    if !timing.is_empty() {
+        // a real-time upper bound was exceeded: only believe it if it is exceeded every time
+        let mut still: Vec<String> = timing.clone();
+        for _ in 0..4 {
+            let o = settled(h, &mut attempts, &mut divergences_not_reproduced);
+            let v = oracle::judge(&job.cfg, &o);
+            still.retain(|k| v.iter().any(|(k2, _)| k2 == k));
+            if still.is_empty() {
+                break;
+            }
+        }
+        for k in timing {
+            if !still.contains(&k) {
+                violations.retain(|(k2, _)| *k2 != k);
+                timing_inconclusive.push(k);
+            }
+        }
+    }
+    JobResult {
+        id: job.id,
+        attempts,
+        outcome,
+        violations,
+        timing_inconclusive,
+        divergences_not_reproduced,
     }
 }
 
@@ -110,7 +162,9 @@ fn configs(tier: verif_common::Tier, shape: Option<&str>) -> Vec<Cfg> {
         let mut modes = base.to_vec();
         // Graceful with an effectively unbounded timeout (Duration::MAX), and with a huge finite
         // one (u64::MAX / 4 s) in the smaller shapes.
-        modes.push(Mode::Unbounded);
+        if tier.is_thorough() || !custom.is_empty() || !(workers == 2 && clients == 2) {
+            modes.push(Mode::Unbounded);
+        }
         let small = if tier.is_thorough() { clients <= 2 } else { clients <= 1 };
         if small {
             modes.push(Mode::Huge);
@@ -272,7 +326,7 @@ pub fn main() {
     let cap_s: u64 = args
         .extra("cap-s")
         .and_then(|s| s.parse().ok())
-        .unwrap_or(if args.tier.is_thorough() { 1080 } else { 150 });
+        .unwrap_or(if args.tier.is_thorough() { 1080 } else { 300 });
     let deadline = started + std::time::Duration::from_secs(cap_s);
     let n_children: usize = args
         .extra("jobs")
@@ -335,6 +389,8 @@ pub fn main() {
     let mut diverged: Vec<&JobResult> = Vec::new();
     let mut nontrivial = std::collections::BTreeSet::new();
     let mut retried = 0u32;
+    let mut timing_inconclusive: BTreeMap<String, usize> = BTreeMap::new();
+    let mut flaky_divergences = 0u32;
     let mut timing_unsafe: Vec<&JobResult> = Vec::new();
     let mut events = 0usize;
     let mut failing: BTreeMap<String, Vec<&JobResult>> = BTreeMap::new();
@@ -384,6 +440,10 @@ pub fn main() {
         for (k, _) in &r.violations {
             failing.entry(k.clone()).or_default().push(r);
         }
+        for k in &r.timing_inconclusive {
+            *timing_inconclusive.entry(k.clone()).or_insert(0) += 1;
+        }
+        flaky_divergences += r.divergences_not_reproduced;
     }
     let mut reexecuted = 0usize;
     let mut unreproduced: Vec<String> = Vec::new();
@@ -394,10 +454,21 @@ pub fn main() {
         let mut reported = false;
         for r in cands.into_iter().take(3) {
             let job = all_jobs[r.id].clone();
-            let (again, _) = run_pool(vec![job.clone()], 1, None);
+            // up to two re-executions: one of them has to reproduce facts and key
+            let mut again = run_pool(vec![job.clone()], 1, None).0;
             reexecuted += 1;
+            let same = |a: &JobResult| a.outcome.facts() == r.outcome.facts() && a.violations.iter().any(|(k, _)| k == key);
+            if !same(&again.results[0]) {
+                again = run_pool(vec![job.clone()], 1, None).0;
+                reexecuted += 1;
+            }
             let a = &again.results[0];
-            if a.outcome.facts() != r.outcome.facts() || !a.violations.iter().any(|(k, _)| k == key) {
+            if !same(a) {
+                if oracle::is_timing_key(key) {
+                    // a real-time bound that is not exceeded reproducibly says nothing
+                    *timing_inconclusive.entry(key.clone()).or_insert(0) += 1;
+                    continue;
+                }
                 if r.outcome.diverged.is_none() {
                     verif_common::machinery_error(&format!(
                         "nondeterministic: re-execution of schedule {} ({:?} {:?}) did not reproduce [{key}]: first {} second {}",
@@ -430,10 +501,12 @@ pub fn main() {
             r.outcome.trace
         );
     }
-    if !timing_unsafe.is_empty() && rep.new_violations() == 0 {
+    // A few schedules whose scheduled part could not be run within half the short timeout even
+    // after 8 attempts are counted as timing-inconclusive; many of them mean the run says nothing.
+    if timing_unsafe.len() * 100 > all_jobs.len() && rep.new_violations() == 0 {
         let r = timing_unsafe[0];
         verif_common::machinery_error(&format!(
-            "{} schedules stayed timing-unsafe after {} attempts (the scheduled part took more than half of the {} ms timeout: machine too loaded, or the server is slow to produce a predicted event); first: {:?} {:?}",
+            "more than 1% of the schedules ({}) stayed timing-unsafe after {} attempts (the scheduled part took more than half of the {} ms timeout: machine too loaded, or the server is slow to produce a predicted event); first: {:?} {:?}",
             timing_unsafe.len(), r.attempts, exec::SHORT_MS, all_jobs[r.id].cfg, all_jobs[r.id].schedule
         ));
     }
@@ -480,7 +553,9 @@ pub fn main() {
         "time_cap_s": cap_s,
         "executions_diverged_from_model": diverged.len(),
         "timing_retries": retried,
-        "schedules_timing_unsafe": timing_unsafe.len(),
+        "schedules_timing_inconclusive_short_timeout_raced_the_schedule": timing_unsafe.len(),
+        "timing_inconclusive": timing_inconclusive,
+        "divergences_not_reproduced_on_repetition": flaky_divergences,
         "violations_reexecuted": reexecuted,
         "keys_seen_only_in_unpredicted_executions_and_not_reproduced": unreproduced,
         "events_observed": events,
@@ -496,7 +571,9 @@ pub fn main() {
             "the shadow model (src/model.rs) decides which schedules exist; every execution checks each predicted event, a mismatch is reported (machinery error unless the oracle finds a new violation); one model parameter (does the worker poll its connection tasks once before signalling hyper-util?) is calibrated by a probe execution at start-up",
             "every accepted TcpStream is registered with the acceptor runtime's IO driver: request bytes are only announced to a connection when the acceptor thread reaches its driver; the harness tells the two cases apart via /proc/self/task/<tid>/{syscall,status} (thread parked in epoll_wait, voluntary context switches) - Linux x86_64 only",
             "each executor process binds its own loopback address 127.(64+x).y.z:0, so the post-shutdown probe can never reach another process' listener on a reused ephemeral port",
-            "real time: Graceful timeouts are 2000 ms (never expected to fire) and 150 ms (fires only after the last scheduled action; executions whose scheduled part took > 75 ms after the timer started are re-run)",
+            "real time: Graceful timeouts are 2000 ms (never expected to fire) and 150 ms (fires only after the last scheduled action; executions whose scheduled part took > 75 ms after the call are re-run, up to 8 times, then counted as timing-inconclusive)",
+            "clauses that compare a real-time interval with an upper bound (forced-not-prompt, graceful-resolve-after-timeout, graceful-resolve-late-after-idle, handle-await-late) use a slack of 400 ms + 4 x the largest scheduling delay a 1 ms sleeper thread of the executor process saw during the execution, and are only reported if they fire in 5 out of 5 executions of the schedule and again in the parent's re-execution; otherwise they are counted under timing_inconclusive (neither violation nor machinery error). Lost requests, accepts after the call, the post-shutdown probe, an unresolved handle/shutdown future and resolving while a handler is blocked are not timing clauses and stay strict",
+            "an execution that leaves the shadow model is repeated (up to 2 more times) and only counts as diverged if it diverges again",
             "the acceptor always dispatches to worker 0 while its queue is not full (next_worker only advances on failure), so worker 1 never gets a connection at these bounds",
             "HTTP/1.1 only, requests without body, at most 2 requests per connection, no client-side close before the server's",
         ],
